@@ -30,7 +30,7 @@ class C11(Engine):
     property_id = "C11"
     level = "exploration"
     budgets = {
-        "quick": {"runs": 1800, "wall": 90, "min_runs": 200, "min_wall": 30},
+        "quick": {"runs": 1500, "wall": 90, "min_runs": 200, "min_wall": 30},
         "thorough": {"runs": 300000, "wall": 1500, "min_runs": 500, "min_wall": 90},
     }
     rule = (
